@@ -32,7 +32,7 @@ try:
         r = subprocess.run(["/venv/bin/python", "-m", "pytest", "-q", "-x", "-p", "no:cacheprovider", "tests"], cwd=d,
                            capture_output=True, text=True, env={**os.environ, "PYTHONPATH": d})
         print("PYTEST:", r.stdout.strip().splitlines()[-1] if r.stdout.strip() else r.stderr[-300:])
-    env = {**os.environ, "ASYNCFIX_SRC": d, "VERIF_SEED": a.seed}
+    env = {**os.environ, "ASYNCFIX_SRC": d, "VERIF_SEED": a.seed, "VERIF_OUT": d + "/_out"}
     r = subprocess.run(["/verif/check", a.prop, "--tier", a.tier], env=env, capture_output=True, text=True)
     out = r.stdout.strip().splitlines()
     for ln in out[-12:]:
